@@ -489,6 +489,9 @@ def parking_leak_region(script):
             return "F19"
         if d["op"] == "indicator" and reads_times(d["i"]):
             return "user expression over an optional task"
+        if d["op"] == "indicator" and d["i"][0] == "idle" and (sel or optional):
+            # IndicatorResourceIdle sorts the busy intervals of its worker with sort_no_duplicates (finding F45)
+            return "F45"
         if d["op"] == "objective" and d["o"][0] in ("startLatest", "greatestStart") and \
                 (d["o"][1] is None or mentions_optional(d["o"][1])):
             # the minimum / maximum of the start times counts the parking instant of an unscheduled task (finding F43)
